@@ -494,7 +494,12 @@ func genDoc(r *hx.Rand, o genOpts) (*GDoc, map[string]VarVal) {
 	}
 	frags := make([]*GFrag, nf)
 	for i := 0; i < nf; i++ {
-		frags[i] = &GFrag{Name: "F" + strconv.Itoa(i), On: hx.Pick(r, []string{"I", "I", "I", "N", "N", "Query"})}
+		// fragment names live in their own namespace: some share a name with an operation (A, B, C)
+		name := "F" + strconv.Itoa(i)
+		if i < 3 && r.Chance(1, 3) {
+			name = string(rune('A' + i))
+		}
+		frags[i] = &GFrag{Name: name, On: hx.Pick(r, []string{"I", "I", "I", "N", "N", "Query"})}
 		g.fragIdx[frags[i].Name] = i
 	}
 	for i := nf - 1; i >= 0; i-- {
